@@ -635,6 +635,8 @@ struct Slot {
     resp: Mutex<Option<Outcome>>,
 }
 
+/// Spin (the partner usually answers within a microsecond), then yield. Parking instead of
+/// spinning was measured to be 8x slower (futex wake latency per hand-off).
 fn wait_until(a: &AtomicU32, pred: impl Fn(u32) -> bool) -> u32 {
     let mut n = 0u32;
     loop {
@@ -856,6 +858,27 @@ impl Child {
         self.evbuf.append(&mut l);
     }
 
+    /// keeps the shortest history per key; later cases of a known key are only counted
+    fn add_violation(&mut self, key: String, hist: &[Op], at: Option<usize>, expected: &str, observed: &str) {
+        if let Some(v) = self.v.by_key.get_mut(&key) {
+            let best = v.replay["history"].as_array().map(|a| a.len()).unwrap_or(usize::MAX);
+            if hist.len() >= best {
+                v.count += 1;
+                return;
+            }
+        }
+        let what = match at {
+            Some(i) => format!("history [{}], step {i} ({}): statement predicts {expected}; observed: {observed}", hist_tokens(hist).join(", "), hist[i].token()),
+            None => format!("history [{}], clean-up suffix: expected {expected}; observed: {observed}", hist_tokens(hist).join(", ")),
+        };
+        let rj = self.replay_json(hist, at, expected, observed);
+        let prev = self.v.by_key.remove(&key).map(|v| v.count).unwrap_or(0);
+        self.v.add(key.clone(), what, rj);
+        if let Some(v) = self.v.by_key.get_mut(&key) {
+            v.count += prev;
+        }
+    }
+
     fn replay_json(&self, hist: &[Op], at: Option<usize>, expected: &str, observed: &str) -> J {
         json!({
             "mode": self.mode,
@@ -1043,9 +1066,7 @@ impl Child {
                     "model_after": Model::describe(tr.m.code())}));
             }
             if let Some((key, expected, observed)) = bad {
-                let what = format!("history [{}], step {i} ({}): statement predicts {expected}; observed: {observed}", hist_tokens(hist).join(", "), op.token());
-                let rj = self.replay_json(hist, Some(i), &expected, &observed);
-                self.v.add(key, what, rj);
+                self.add_violation(key, hist, Some(i), &expected, &observed);
                 break; // the real global has left the model; go straight to the clean-up
             }
         }
@@ -1120,9 +1141,7 @@ impl Child {
             }
         }
         for (key, e, o) in problems {
-            let what = format!("history [{}], clean-up suffix: expected {e}; observed: {o}", hist_tokens(hist).join(", "));
-            let rj = self.replay_json(hist, None, &e, &o);
-            self.v.add(key, what, rj);
+            self.add_violation(key, hist, None, &e, &o);
         }
         if leaked {
             // the process-global no longer matches the model's base state: later histories in
@@ -1187,6 +1206,15 @@ fn child_main(a: &[String]) -> ! {
             // one HIST(csv) TRACE
             let hist: Vec<Op> = a.get(1).map(|s| s.split(',').filter(|t| !t.is_empty()).map(|t| Op::parse(t).unwrap_or_else(|| bad_child_args(a))).collect()).unwrap_or_else(|| bad_child_args(a));
             let want_trace = num(2) == 1;
+            // only histories of the model's own language are meaningful
+            let mut m = Model::default();
+            for op in &hist {
+                if !m.enabled(true).contains(op) {
+                    eprintln!("c17: operation {} is not enabled at this point of the history", op.token());
+                    std::process::exit(2);
+                }
+                m.apply(*op);
+            }
             let mut c = Child::new("one-history-per-process");
             let mut trace = vec![];
             c.run_history(&hist, &Tracker::default(), if want_trace { Some(&mut trace) } else { None });
